@@ -48,7 +48,16 @@ func c10Key(sc *c01Script, frames []c01Frame, phaseOf map[int]int) string {
 		case "pub", "join", "leave":
 			if ended {
 				if sc.Batch {
-					return "batch-add-after-delwriter"
+					// the recorded finding needs a broadcast parked between its subscription
+					// check and the enqueue while the unsubscribe runs (deliverx)
+					for _, ph := range sc.Phase {
+						for _, op := range ph {
+							if op.K == "deliverx" {
+								return "batch-add-after-delwriter"
+							}
+						}
+					}
+					return "batch-writer-survives-unsubscribe"
 				}
 				return "other-late"
 			}
@@ -110,10 +119,15 @@ func c10RandScript(r *rand.Rand) *c01Script {
 		sc.Close = true
 		sc.Phase[8] = c10RandOps(r, 1+r.Intn(3), sc, false)
 	}
+	if sc.Batch && sc.Unsub > 0 && r.Intn(2) == 0 {
+		sc.BatchReload = true
+		sc.Phase[7] = append(sc.Phase[7], c01Op{K: "flush"})
+	}
 	// connect-time server-side subscription (drawn last: the other scripts of a seed stay what they were)
 	if !sc.Server && r.Intn(3) == 0 {
 		sc.Connect = true
 	}
+	c01AddMedium(r, sc)
 	return sc
 }
 
@@ -147,12 +161,20 @@ func c10Corpus() []*c01Script {
 		{JL: true, Batch: true, Close: true, Phase: c01Phases(map[int][]c01Op{6: c01Ops(P(false), D(0), J, D(0))})},
 		// 11: server API unsubscribe with the broadcast parked (push 2000 after the publication)
 		{Pos: true, JL: true, Phase: c01Phases(map[int][]c01Op{6: c01Ops(P(false), c01Op{K: "deliverx", Unsub: 2}, J, D(0))})},
+		// 15 (below): batching, a configuration reload (GetChannelBatchConfig answers "no batching") races the unsubscribe
 		// 12: connect-time server-side subscription: joins and offset publications inside the connect window are held back
 		{Connect: true, Pos: true, JL: true, Unsub: 2, Phase: c01Phases(map[int][]c01Op{2: c01Ops(J, D(0), P(false), D(0)), 6: c01Ops(J, D(0), P(false), D(0), L, D(0)), 7: c01Ops(P(false), D(0), J, D(0))})},
 		// 13: connect-time, FINDING (a): offset-less publication between hub registration and the connect reply
 		{Connect: true, JL: true, Phase: c01Phases(map[int][]c01Op{2: c01Ops(P0, D(0)), 6: c01Ops(P(false), D(0))})},
 		// 14: connect-time with batching, client unsubscribe with the broadcast parked
 		{Connect: true, Pos: true, Batch: true, Phase: c01Phases(map[int][]c01Op{6: c01Ops(P(false), c01Op{K: "deliverx", Unsub: 1}, c01Op{K: "flush"})})},
+		// 15: the buffered publication must be discarded with the unsubscribe whatever the callback says at that moment
+		{Pos: true, JL: true, Batch: true, BatchReload: true, Unsub: 1, Phase: c01Phases(map[int][]c01Op{6: c01Ops(P(false), D(0), J, D(0)), 7: c01Ops(c01Op{K: "flush"}, P(false), D(0))})},
+		// 17, 18 (below): behind a channel medium, the insufficient-state marker reaches a plain / a positioned subscription
+		// 16: same, server-side unsubscribe
+		{JL: true, Batch: true, BatchReload: true, Unsub: 2, Phase: c01Phases(map[int][]c01Op{6: c01Ops(P(false), D(0)), 7: c01Ops(c01Op{K: "flush"})})},
+		{Medium: true, JL: true, Phase: c01Phases(map[int][]c01Op{6: c01Ops(P(false), D(0), c01Op{K: "mark"}, J, D(0), P0, D(0), P(false), D(0))})},
+		{Medium: true, Pos: true, JL: true, Phase: c01Phases(map[int][]c01Op{6: c01Ops(P(false), D(0), c01Op{K: "mark"}, J, D(0), P(false), D(0))})},
 	}
 }
 
